@@ -120,8 +120,6 @@ def judge_pair(name, a, tier):
     bad = invalid_values(T)
     for route in ROUTES:
         for v in good:
-            if route == 'parser' and isinstance(v, str) and v != v.strip():
-                continue
             e, exc, ex = assign(name, attr, v, route)
             if e is None:
                 kind = 'internal-error' if hist.classify_exception(ex, 'ATTR') else 'valid-attribute-rejected'
